@@ -282,6 +282,17 @@ def gen_ddn(rng, kind):
         # reward bases with multi-agent action tags; S and A shapes differ
         rew = [rbm(rng, S, A, None, sorted(rng.sample(range(len(A)), rng.randint(1, len(A))))) for _ in range(rng.randint(1, 3))]
         qs = ["%s %s" % (L([rng.randrange(x) for x in S]), L([rng.randrange(x) if rng.random() < 0.3 else x - 1 for x in A])) for _ in range(3)]
+        if rng.random() < 0.4:
+            # corrupt one row of one table (any row index, the last rows included): the constructor must throw
+            i = rng.randrange(len(S))
+            toks = mats[i].split()
+            rows, cols = int(toks[0]), int(toks[1])
+            j = rows - 1 if rng.random() < 0.4 else rng.randrange(rows)
+            bad = rng.choice([["3/4"] + ["0"] * (cols - 1), ["5/4"] + ["0"] * (cols - 1),
+                              (["5/4", "-1/4"] + ["0"] * (cols - 2)) if cols > 1 else ["1/2"],
+                              ["1/4"] * cols if cols != 4 else ["1/2"] * cols])
+            toks[2 + j * cols: 2 + (j + 1) * cols] = bad
+            mats[i] = " ".join(toks)
         return "cmodel %s %s %s %s %s %s 3 %s" % (L(S), L(A), " ".join(PS(p) for p in pss), " ".join(mats), FM(rew),
                                                   rng.choice(["1/2", "3/4", "1"]), " ".join(qs))
     qs = []
@@ -302,17 +313,27 @@ def rbm(rng, S, A, tag=None, atag=None):
 def BM(b): return "%s %s %d %d %s" % (L(b[0]), L(b[1]), b[2], b[3], " ".join(b[4]))
 def FM(fm): return ("%d " % len(fm) + " ".join(BM(b) for b in fm)) if fm else "0"
 
+def related_tag(rng, t, n):
+    """a tag in a chosen relation to t within range(n): equal, prefix, non-prefix subset, superset,
+       disjoint, interleaved (overlapping, neither contains the other)"""
+    t = list(t)
+    rel = rng.choice(["equal", "prefix", "subset", "subset", "superset", "disjoint", "interleaved"])
+    others = [k for k in range(n) if k not in t]
+    if rel == "prefix" and len(t) > 1: return t[:rng.randint(1, len(t) - 1)]
+    if rel == "subset" and len(t) > 1:
+        # drop the first key (so the rest is not a prefix), maybe more
+        keep = [k for k in t[1:] if rng.random() < 0.7] or [t[-1]]
+        return keep
+    if rel == "superset" and others: return sorted(t + rng.sample(others, rng.randint(1, len(others))))
+    if rel == "disjoint" and others: return sorted(rng.sample(others, rng.randint(1, len(others))))
+    if rel == "interleaved" and others and len(t) > 1:
+        return sorted(rng.sample(t, rng.randint(1, len(t) - 1)) + rng.sample(others, rng.randint(1, len(others))))
+    return t
+
 def related_bm(rng, S, A, fm):
-    def vary(t, n):
-        t = list(t); r = rng.random()
-        if r < 0.3 and len(t) > 1: return sorted(rng.sample(t, rng.randint(1, len(t) - 1)))
-        if r < 0.6:
-            extra = [k for k in range(n) if k not in t]
-            if extra: return sorted(t + rng.sample(extra, rng.randint(1, len(extra))))
-        return t
-    if fm and rng.random() < 0.75:
+    if fm and rng.random() < 0.85:
         b = rng.choice(fm)
-        return rbm(rng, S, A, vary(b[0], len(S)), vary(b[1], len(A)))
+        return rbm(rng, S, A, related_tag(rng, b[0], len(S)), related_tag(rng, b[1], len(A)))
     return rbm(rng, S, A)
 
 def gen_2d(rng, kind):
@@ -331,7 +352,16 @@ def gen_2d(rng, kind):
         return "flatb %s %d %s %s" % (L(A), len(groups),
                                      " ".join("%s %s" % (L(g), LQ(rvals(rng, prod(A[k] for k in g)))) for g in groups), L(pulls))
     S = [rng.choice([1, 2, 2, 3]) for _ in range(rng.choice([1, 2, 2, 3]))]
-    A = [rng.choice([1, 2, 2]) for _ in range(rng.choice([1, 2]))]
+    A = [rng.choice([2, 2, 3]) for _ in range(rng.choice([1, 2, 3, 3]))]
+    if prod(S) * prod(A) > 216: S = S[:2]
+    if kind == "subop2d":
+        big = rbm(rng, S, A)
+        def sub_of(t):
+            r = rng.random()
+            if r < 0.25 or len(t) == 1: return list(t)
+            if r < 0.45: return t[:rng.randint(1, len(t) - 1)]                 # prefix
+            return ([k for k in t[1:] if rng.random() < 0.7] or [t[-1]])      # non-prefix subset
+        return "subop2d %s %s %s %s" % (L(S), L(A), BM(big), BM(rbm(rng, S, A, sub_of(big[0]), sub_of(big[1]))))
     fm = [rbm(rng, S, A) for _ in range(rng.randint(0, 3))]
     op = rng.choice(["plus", "plus", "plusrv", "plusfm", "plusfmrv", "scale", "scalew", "scalew", "scalewc", "getw"])
     if op in ("scalew", "scalewc") and not fm:
@@ -434,7 +464,7 @@ def gen(rng, tier):
         elif u < 0.80:
             c = gen_learn(rng, rng.choice(["jal", "jal", "coop1", "coop1", "coopg", "coopg", "sparse1", "sparse1", "sparseg"]))
         elif u < 0.88:
-            c = gen_2d(rng, rng.choice(["facout", "facout", "flatb", "fm", "fm", "fm", "fm"]))
+            c = gen_2d(rng, rng.choice(["facout", "flatb", "fm", "fm", "fm", "fm", "subop2d", "subop2d"]))
         else:
             c = gen_ddn(rng, rng.choice(["ddn", "ddn", "ddnsmall", "ddnsmall", "cmodel", "cmodel", "ddnpush"]))
         if c is not None:
